@@ -145,6 +145,10 @@ func (w *Worker) Expired() bool { return !w.deadline.IsZero() && time.Now().Afte
 func RunWorker(p *Property, tier string, shard, nshards int, deadline time.Time, out string) error {
 	w := newWorker(p.ID, deadline)
 	cur := out + ".cur"
+	curF, _ := os.OpenFile(cur, os.O_CREATE|os.O_WRONLY, 0o644)
+	if curF != nil {
+		defer curF.Close()
+	}
 	spaces := p.Spaces(tier)
 	w.Exhausted = true
 	if f := os.Getenv("VERIF_SPACES"); f != "" { // debugging aid: restrict to spaces with these name prefixes
@@ -173,7 +177,12 @@ func RunWorker(p *Property, tier string, shard, nshards int, deadline time.Time,
 				w.Exhausted = false
 				break
 			}
-			os.WriteFile(cur, []byte(sp.Name+" "+strconv.Itoa(i)), 0o644)
+			// progress record for crash attribution: one pwrite into an open file
+			// (creating/truncating a file per item costs more than most items)
+			if curF != nil {
+				rec := fmt.Sprintf("%-120s", sp.Name+" "+strconv.Itoa(i))
+				curF.WriteAt([]byte(rec), 0)
+			}
 			t0 := time.Now()
 			sp.Run(i, w)
 			if d := time.Since(t0); os.Getenv("VERIF_TIMING") != "" && d > 2*time.Second {
